@@ -488,7 +488,13 @@ class EngineWorld:
         self.loop.executor_delay = lambda: float(self.tape.choice(self.cfg["grid"], "exec"))
         self._last_stable_seq = -1
         self.loop.stable_hooks.append(self._on_stable)
+        self.loop.set_exception_handler(self._loop_exc)
         _CURRENT_WORLD[0] = self
+
+    def _loop_exc(self, loop, context) -> None:
+        e = context.get("exception")
+        self.trace.log("loop-exception", msg=str(context.get("message"))[:80], exc=type(e).__name__ if e else None,
+                       detail=str(e)[:160] if e else None)
 
     def _on_stable(self) -> None:
         if self.trace.seq != self._last_stable_seq:
